@@ -5,6 +5,9 @@
 package main
 
 import (
+	"github.com/ogen-go/ogen/middleware"
+	ht "github.com/ogen-go/ogen/http"
+	"errors"
 	"bytes"
 	"context"
 	"encoding/json"
@@ -68,6 +71,53 @@ func (handler) PostO(ctx context.Context, req api.PostOReq) (api.PostOOK, error)
 	vs.Observe("handler PostO %d bytes", len(b))
 	note(ctx, "PostO{%q err=%v}", b, err)
 	return api.PostOOK{Data: bytes.NewReader(append([]byte("echo:"), b...))}, nil
+}
+
+func (handler) GetH(ctx context.Context, p api.GetHParams) (api.GetHRes, error) {
+	vs.Point("handler.GetH")
+	vs.Observe("handler GetH id=%q", p.ID)
+	note(ctx, "GetH{id=%q l=%q}", p.ID, p.L)
+	switch p.ID {
+	case "boom":
+		return nil, errors.New("handler failed for " + p.ID)
+	case "teapot":
+		return &api.GetH4XXStatusCode{StatusCode: 418, Response: api.GetH4XX{Code: len(p.L)}}, nil
+	}
+	return &api.GetHOKHeaders{XA: api.NewOptString("a-" + p.ID), XL: append([]string{p.ID}, p.L...), Response: "h:" + p.ID}, nil
+}
+
+func (handler) PostM(ctx context.Context, req *api.PostMReq) (string, error) {
+	vs.Point("handler.PostM")
+	b, err := io.ReadAll(req.F.File)
+	vs.Observe("handler PostM a=%q", req.A)
+	note(ctx, "PostM{a=%q file=%q name=%q err=%v}", req.A, b, req.F.Name, err)
+	return fmt.Sprintf("m:%s:%d", req.A, len(b)), nil
+}
+
+func (handler) PostT(ctx context.Context, req api.PostTReq) (api.PostTOK, error) {
+	vs.Point("handler.PostT")
+	b, err := io.ReadAll(req.Data)
+	vs.Observe("handler PostT %d bytes", len(b))
+	note(ctx, "PostT{%q err=%v}", b, err)
+	return api.PostTOK{Data: strings.NewReader("text:" + string(b))}, nil
+}
+
+// security: the key travels in the call's context; "bad" is refused
+type keyCtx struct{}
+
+type sec struct{}
+
+func (sec) HandleK(ctx context.Context, op api.OperationName, t api.K) (context.Context, error) {
+	vs.Point("security.HandleK")
+	if !strings.HasPrefix(t.APIKey, "key-") {
+		return ctx, errors.New("refused key " + t.APIKey)
+	}
+	return ctx, nil
+}
+
+func (sec) K(ctx context.Context, op api.OperationName) (api.K, error) {
+	k, _ := ctx.Value(keyCtx{}).(string)
+	return api.K{APIKey: k}, nil
 }
 
 type yieldReader struct {
@@ -169,6 +219,42 @@ var menu = []call{
 		b, _ := io.ReadAll(r.Data)
 		return fmt.Sprintf("PostOOK %q", b)
 	}},
+	{"getH ok", func(ctx context.Context, c *api.Client) string {
+		r, err := c.GetH(context.WithValue(ctx, keyCtx{}, "key-one"), api.GetHParams{ID: "first", L: []string{"x", "y"}})
+		return show(r, err)
+	}},
+	{"getH ok other", func(ctx context.Context, c *api.Client) string {
+		r, err := c.GetH(context.WithValue(ctx, keyCtx{}, "key-two"), api.GetHParams{ID: "second-and-longer", L: []string{"z"}})
+		return show(r, err)
+	}},
+	{"getH handler error", func(ctx context.Context, c *api.Client) string {
+		r, err := c.GetH(context.WithValue(ctx, keyCtx{}, "key-one"), api.GetHParams{ID: "boom"})
+		return show(r, err)
+	}},
+	{"getH pattern response", func(ctx context.Context, c *api.Client) string {
+		r, err := c.GetH(context.WithValue(ctx, keyCtx{}, "key-one"), api.GetHParams{ID: "teapot", L: []string{"p", "q", "r"}})
+		return show(r, err)
+	}},
+	{"getH unauthorized", func(ctx context.Context, c *api.Client) string {
+		r, err := c.GetH(context.WithValue(ctx, keyCtx{}, "bad"), api.GetHParams{ID: "nokey"})
+		return show(r, err)
+	}},
+	{"postM multipart", func(ctx context.Context, c *api.Client) string {
+		r, err := c.PostM(ctx, &api.PostMReq{A: "field", F: ht.MultipartFile{Name: "f.txt", File: strings.NewReader("file-content-0123456789")}})
+		return show(r, err)
+	}},
+	{"postM invalid", func(ctx context.Context, c *api.Client) string {
+		r, err := c.PostM(ctx, &api.PostMReq{A: "much-too-long-a-field", F: ht.MultipartFile{Name: "g.txt", File: strings.NewReader("other")}})
+		return show(r, err)
+	}},
+	{"postT text", func(ctx context.Context, c *api.Client) string {
+		r, err := c.PostT(ctx, api.PostTReq{Data: strings.NewReader("plain text body")})
+		if err != nil {
+			return "error: " + err.Error()
+		}
+		b, _ := io.ReadAll(r.Data)
+		return fmt.Sprintf("PostTOK %q", b)
+	}},
 }
 
 type kase struct {
@@ -192,18 +278,37 @@ func main() {
 	replay := flag.String("replay", "", "replay artefact")
 	flag.Parse()
 	thorough := os.Getenv("VERIF_TIER") == "thorough"
-	srv, err := api.NewServer(handler{})
+	// two pass-through middlewares (the generated option chains them with middleware.ChainMiddlewares
+	// only when there are several), each with a scheduling point before and after the rest of the chain
+	mw := func(name string) middleware.Middleware {
+		return func(req middleware.Request, next middleware.Next) (middleware.Response, error) {
+			vs.Point("middleware:" + name + ":in")
+			resp, err := next(req)
+			vs.Point("middleware:" + name + ":out")
+			return resp, err
+		}
+	}
+	srv, err := api.NewServer(handler{}, sec{}, api.WithMiddleware(mw("outer"), mw("inner")))
 	if err != nil {
 		drv.Fatal("NewServer: %v", err)
 	}
-	client, err := api.NewClient("http://x", api.WithClient(transport{srv}))
+	client, err := api.NewClient("http://x", sec{}, api.WithClient(transport{srv}))
 	if err != nil {
 		drv.Fatal("NewClient: %v", err)
 	}
 	runCall := func(ci int) string {
 		s := &slot{}
 		ctx := context.WithValue(context.Background(), ctxKey{}, s)
-		out := menu[ci].do(ctx, client)
+		// a panic inside a call (e.g. a request finished by another request's handler closure) is an
+		// outcome of that call, not a crash of the explorer
+		out := func() (out string) {
+			defer func() {
+				if p := recover(); p != nil {
+					out = fmt.Sprintf("PANIC in the call: %v", p)
+				}
+			}()
+			return menu[ci].do(ctx, client)
+		}()
 		return "handler saw " + s.got + " | wire " + s.wire + " | caller got " + out
 	}
 	// sequential reference outcomes: each call run alone
@@ -277,8 +382,20 @@ func main() {
 		for _, t := range triples {
 			combos = append(combos, combo{[][]int{{t[0]}, {t[1]}, {t[2]}}, 2, false})
 		}
+		// two calls per thread (reuse of pooled objects after a completed call): over one call per
+		// operation kind, to keep the product bounded
+		core := map[int]bool{}
+		for i, c := range menu {
+			switch c.name {
+			case "postV ok", "postV invalid", "postV default response", "getE ok", "postF form", "getH ok", "getH handler error", "postM multipart":
+				core[i] = true
+			}
+		}
 		for _, a := range pairs {
 			for _, b := range pairs {
+				if !(core[a[0]] && core[a[1]] && core[b[0]] && core[b[1]]) {
+					continue
+				}
 				if a[0] <= b[0] {
 					combos = append(combos, combo{[][]int{{a[0], a[1]}, {b[0], b[1]}}, 2, false})
 				}
